@@ -137,6 +137,9 @@ func h1OneRun(env *Env, c *H1Cfg, st *h1State, runIdx int) {
 		if c.CancelAtStep > 0 {
 			env.Sim.AtStep(c.CancelAtStep, doCancel)
 		}
+		if c.CancelAtSite != "" {
+			env.Sim.AtSite(c.CancelAtSite, max(c.CancelSiteNth, 1), c.CancelSitePlus, func() { env.Hit("fault.cancel_at_site"); doCancel() })
+		}
 	}
 
 	builders := trigger.GetBuilders(out)
